@@ -77,17 +77,61 @@ func (e *Emitter) Script(o *Obligation) string {
 	// transitive closure over fresh-constant definitions is not needed: pcs carry definitions.
 	used := symbolsOf(body)
 	// assertion-carrying decl lines (global facts) may mention further symbols
+	// An assertion among the declarations is a well-formedness fact about fresh symbols (e.g. "a map is zero outside its
+	// key set"). It is kept only when every fresh symbol it speaks about occurs in this VC (directly or through a kept
+	// fact): facts about symbols of other paths cannot matter, and dropping a hypothesis is always sound.
 	var keep []string
+	type adecl struct {
+		text  string
+		syms  map[string]bool
+		fresh []string
+		kept  bool
+	}
+	var ads []*adecl
 	for _, d := range decls {
 		if strings.HasPrefix(d, "(assert") {
-			for s := range symbolsOf(d) {
-				used[s] = true
+			a := &adecl{text: d, syms: symbolsOf(d)}
+			for s := range a.syms {
+				if strings.Contains(s, "!") {
+					a.fresh = append(a.fresh, s)
+				}
 			}
+			ads = append(ads, a)
+		}
+	}
+	for changed := true; changed; {
+		changed = false
+		for _, a := range ads {
+			if a.kept {
+				continue
+			}
+			ok := true
+			for _, s := range a.fresh {
+				if !used[s] {
+					ok = false
+					break
+				}
+			}
+			if ok {
+				a.kept = true
+				changed = true
+				for s := range a.syms {
+					used[s] = true
+				}
+			}
+		}
+	}
+	keptText := map[string]bool{}
+	for _, a := range ads {
+		if a.kept {
+			keptText[a.text] = true
 		}
 	}
 	for _, d := range decls {
 		if strings.HasPrefix(d, "(assert") {
-			keep = append(keep, d)
+			if keptText[d] {
+				keep = append(keep, d)
+			}
 			continue
 		}
 		// (declare-const name sort)
